@@ -35,7 +35,7 @@ def errs():
 def spec_pool():
     E = errs()
     return [(True, 'TRUE'), (False, 'FALSE'), (0, '0'), (1, '1'), (2, '2'), (-1, '-1'), (0.0, '0.0'), (0.5, '0.5'),
-            (None, 'NULL'), (E['#DIV/0!'], '1/0'), (E['#N/A'], 'NA()')]
+            (None, 'NULL'), (E['#DIV/0!'], '1/0'), (E['#N/A'], 'NA()'), (1e-16, '1/10^16'), (0.1 + 0.2 - 0.3, '(0.1+0.2-0.3)')]
 
 
 def registry(name):
@@ -218,6 +218,8 @@ def explore(ctx):
     E = errs()
     base = [True, False, 0, 1, 2, -1, 0.0, 0.5, -2.5, None, E['#DIV/0!'], E['#N/A']]
     extra = ['', 'a', datetime.datetime(2020, 1, 1), [], [1], [0, [True]], [[], [None]], [1, [E['#NUM!'], 2]], 3.0, 10 ** 20]
+    tiny = [1e-16, -1e-300, 5e-324, 5.551115123125783e-17, 1e-15, -0.0, 1e300]      # non-zero is true however small; -0.0 is zero
+    extra += tiny
     maxlen = 4 if ctx.thorough else 3
     cases = []
     # AND/OR/XOR: all tuples up to maxlen over the base pool, flat; then nested regroupings
@@ -245,10 +247,16 @@ def explore(ctx):
         for n in PREDS:
             cases.append((n, [v]))
     cases += [('NOT', []), ('NOT', [1, 2]), ('IF', [1]), ('IF', [1, 2]), ('IF', [1, 2, 3, 4]), ('ISTEXT', []), ('ISEVEN', [1, 2])]
-    for c in base:
+    for c in base + tiny:
         for a in (7, None):
             for b in ('x', 0):
                 cases.append(('IF', [c, a, b]))
+    for v in tiny:
+        for name in ('AND', 'OR', 'XOR'):
+            cases.append((name, [v]))
+            cases.append((name, [v, 0]))
+            cases.append((name, [False, [v]]))
+        cases.append(('IFS', [v, 'first', True, 'second']))
     for n in range(0, 7):
         for _ in range(400 if ctx.thorough else 120):
             cases.append(('IFS', [rng.choice(base) for _ in range(n)]))
